@@ -99,7 +99,9 @@ func TestC17Concurrent(t *testing.T) {
 		worker("user", func(i int) {
 			if i%editEvery == 1 {
 				// frequent template changes: replica sets are created, superseded and collected while others sync
-				_ = c.EditEDS("ns1", "foo", func(x *edsv1.ExtendedDaemonSet) { x.Spec.Template = withTolerations(gen.LetterTemplate("ABCDG"[(i/editEvery)%5]), nTol) })
+				_ = c.EditEDS("ns1", "foo", func(x *edsv1.ExtendedDaemonSet) {
+					x.Spec.Template = withTolerations(gen.LetterTemplate("ABCDG"[(i/editEvery)%5]), nTol)
+				})
 			}
 			switch i % 10 {
 			case 6:
